@@ -453,6 +453,7 @@ type FuncContract struct {
 	Props    []string
 	Clauses  []*Clause
 	Pure     bool
+	Functional bool
 	Inline   bool
 	Trusted  bool // contract is assumed, body not verified (only allowed in /verif/specs)
 	NoBody   bool
@@ -498,14 +499,24 @@ type ContractSet struct {
 	Funcs     map[string]*FuncContract // key: pkgpath + "." + Key
 	Specs     map[string]*SpecFunc     // key: name (global) and pkg.name
 	PureIface map[string]bool          // "pkgpath.Iface.Method"
+	PureAny   map[string]string        // method name -> result type (pure on every receiver)
 	Lemmas    []*Lemma
 	Axioms    []*Axiom
 	Files     []string
 	Order     []string
 }
 
+// IsPure reports whether an interface method is declared a deterministic getter.
+func (cs *ContractSet) IsPure(ifaceKey, method string) bool {
+	if cs.PureIface[ifaceKey+"."+method] {
+		return true
+	}
+	_, ok := cs.PureAny[method]
+	return ok
+}
+
 func NewContractSet() *ContractSet {
-	return &ContractSet{Funcs: map[string]*FuncContract{}, Specs: map[string]*SpecFunc{}, PureIface: map[string]bool{}}
+	return &ContractSet{Funcs: map[string]*FuncContract{}, Specs: map[string]*SpecFunc{}, PureIface: map[string]bool{}, PureAny: map[string]string{}}
 }
 
 // readContractLines extracts //@ lines; continuation: a line that starts with
@@ -533,9 +544,9 @@ func readContractLines(path string) ([]string, []int, error) {
 }
 
 var clauseKeywords = map[string]bool{
-	"func": true, "spec": true, "lemma": true, "axiom": true, "pureiface": true,
+	"func": true, "spec": true, "pureany": true, "lemma": true, "axiom": true, "pureiface": true,
 	"props": true, "requires": true, "ensures": true, "let": true, "loop": true, "assigns": true,
-	"pure": true, "inline": true, "trusted": true, "callback": true, "ghost": true, "on": true,
+	"pure": true, "functional": true, "inline": true, "trusted": true, "callback": true, "ghost": true, "on": true,
 	"maypanic": true, "attr": true, "assume": true, "package": true, "nobody": true, "cover": true,
 }
 
@@ -694,6 +705,11 @@ func (cs *ContractSet) LoadFile(path, pkgPath string, isSpec bool) error {
 				}
 			}
 			cur = nil
+		case "pureany":
+			// pureany Method resulttype
+			mn, rt := firstWord(rest)
+			cs.PureAny[mn] = rt
+			cur = nil
 		case "lemma", "axiom":
 			lab, body := splitLabel(rest)
 			if lab == "" {
@@ -725,6 +741,10 @@ func (cs *ContractSet) LoadFile(path, pkgPath string, isSpec bool) error {
 				cur.Props = append(cur.Props, strings.Fields(rest)...)
 			case "pure":
 				cur.Pure = true
+			case "functional":
+				// pure and deterministic: results are a function of the arguments (and the heap epoch)
+				cur.Pure = true
+				cur.Functional = true
 			case "inline":
 				cur.Inline = true
 			case "nobody":
